@@ -1620,7 +1620,7 @@ class TwoDResponse(TwoDSpectrumBase, Saveable):
         
         twod.set_data_type(dtype)
         self.set_data_flag(dtype)
-        twod.set_data(numpy.array(self.d__data[:,:]))
+        twod.set_data(numpy.array(self.d__data[:,:]), dtype=dtype)
 
         return twod
 
